@@ -37,10 +37,29 @@ func Scripted(prop string) []*Scenario {
 				Ops: []OpSpec{hdr("h", 1, 1, 2, 3), hdr("h", 1, 4), {Sess: "h", Kind: "sethead", N: 1}, hdr("h", 1, 5)}},
 			&Scenario{Name: "sethead-orphan-side-block", Nodes: []NodeSpec{{}, v(0, 100), v(1, 100), v(2, 100), v(2, 50)},
 				Ops: []OpSpec{ins("f", 1, 1, 2, 3), ins("f", 1, 4), {Sess: "f", Kind: "sethead", N: 1}, ins("f", 1, 4)}},
+			prunedSideScenario(),
 			&Scenario{Name: "mixed", Nodes: nodes, Ops: []OpSpec{ins("m", 1, 1, 2), hdr("m", 1, 3, 7, 8), ins("m", 2, 3), {Sess: "m", Kind: "sethead", N: 3}, hdr("m", 2, 5, 6), ins("m", 3, 7), {Sess: "m", Kind: "reopen"}, ins("m", 3, 5, 6)}},
 		)
 	}
 	return out
+}
+
+// prunedSideScenario: pruning node, 134 empty blocks, restart (only HEAD, HEAD-1 and
+// HEAD-127 keep their state), then a sibling of block 133 (same state root as block 133,
+// parent state gone) followed by a heavy child: the sibling becomes canonical without receipts.
+func prunedSideScenario() *Scenario {
+	sc := &Scenario{Name: "pruned-side-block-without-receipts", Nodes: []NodeSpec{{}}}
+	for i := 1; i <= 134; i++ {
+		sc.Nodes = append(sc.Nodes, NodeSpec{Parent: i - 1, Diff: 100, Valid: true})
+	}
+	sc.Nodes = append(sc.Nodes, NodeSpec{Parent: 132, Diff: 90, Valid: true}, NodeSpec{Parent: 135, Diff: 400, Valid: true})
+	main := make([]int, 134)
+	for i := range main {
+		main[i] = i + 1
+	}
+	sc.Ops = []OpSpec{{Sess: "p", Kind: "insert", Nodes: main[:70], Seed: 1}, {Sess: "p", Kind: "insert", Nodes: main[70:], Seed: 1}, {Sess: "p", Kind: "reopen"},
+		{Sess: "p", Kind: "insert", Nodes: []int{135}, Seed: 1}, {Sess: "p", Kind: "insert", Nodes: []int{136}, Seed: 1}, {Sess: "p", Kind: "insert", Nodes: []int{135, 136}, Seed: 1}}
+	return sc
 }
 
 var diffChoices = []int64{100, 100, 100, 100, 50, 150, 200, 300, 400}
@@ -176,6 +195,83 @@ func RandomScenario(rng *vh.RNG, prop string, name string, maxBlocks int) *Scena
 	return sc
 }
 
+// PruningScenario: a pruning (non-archive) node.  A main chain longer than
+// core.triesInMemory (128) so that the state of its old blocks is garbage
+// collected; side branches attached at pruned ancestors (lighter: stored
+// without state through the ErrPrunedAncestor branch; one far heavier: the
+// `winner` re-execution from the last block that still has state) and at
+// unpruned ancestors (ordinary side blocks and reorganisations); re-delivery
+// of known blocks: canonical and side, below and above the head.
+func PruningScenario(rng *vh.RNG, prop string, name string) *Scenario {
+	sc := &Scenario{Name: name, Nodes: []NodeSpec{{}}}
+	add := func(parent int, diff int64, txs ...TxSpec) int {
+		sc.Nodes = append(sc.Nodes, NodeSpec{Parent: parent, Diff: diff, Valid: true, Txs: txs})
+		return len(sc.Nodes) - 1
+	}
+	L := 134 + rng.Intn(8)
+	main := []int{0}
+	for i := 1; i <= L; i++ {
+		var txs []TxSpec
+		if i <= 6 && rng.Chance(50) {
+			txs = []TxSpec{{Acct: rng.Intn(len(keyHex)), Variant: 0}}
+		}
+		main = append(main, add(main[i-1], 100, txs...))
+	}
+	branch := func(at int, n int, diff int64) []int {
+		var out []int
+		p := main[at]
+		for j := 0; j < n; j++ {
+			var txs []TxSpec
+			if rng.Chance(40) {
+				txs = []TxSpec{{Acct: rng.Intn(len(keyHex)), Variant: rng.Intn(2)}}
+			}
+			p = add(p, diff, txs...)
+			out = append(out, p)
+		}
+		return out
+	}
+	prunedAt := func() int { return 1 + rng.Intn(L-131) } // state gone once the head is at L
+	lightA := branch(prunedAt(), 1+rng.Intn(3), 60)
+	lightB := branch(prunedAt(), 2, 90)
+	lightC := branch(prunedAt(), 1, 30)
+	recentSide := branch(L-3-rng.Intn(10), 2, 70)
+	recentHeavy := branch(L-2, 3, 160) // wins an ordinary reorganisation near the head
+	heavyAt := prunedAt()
+	heavy := branch(heavyAt, 2, int64(L)*100+5000) // far heavier than the whole main chain: winner path
+	ins := func(nodes ...int) {
+		sc.Ops = append(sc.Ops, OpSpec{Sess: "p", Kind: "insert", Nodes: nodes, Seed: int64(rng.Intn(1 << 30))})
+	}
+	// import the main chain in random batches
+	for i := 1; i <= L; {
+		n := 1 + rng.Intn(40)
+		if i+n > L+1 {
+			n = L + 1 - i
+		}
+		ins(main[i : i+n]...)
+		i += n
+	}
+	steps := [][]int{lightA, lightA, lightC, lightB[:1], lightB, lightC, recentSide, recentSide,
+		main[3:6], main[L-5 : L+1], main[1:3], recentHeavy, recentHeavy[:1], main[L-1 : L+1], lightA}
+	for _, st := range steps {
+		ins(st...)
+		if rng.Chance(8) {
+			sc.Ops = append(sc.Ops, OpSpec{Sess: "p", Kind: "reopen"})
+		}
+	}
+	if prop == "C03" && rng.Chance(50) {
+		sc.Ops = append(sc.Ops, OpSpec{Sess: "p", Kind: "sethead", N: uint64(L - 2)})
+		ins(main[L-1 : L+1]...)
+	}
+	// the far heavier branch on a pruned ancestor: first its first block, then all of it, then re-deliveries
+	ins(heavy[:1]...)
+	ins(heavy...)
+	ins(heavy...)
+	ins(main[heavyAt : heavyAt+3]...) // now side blocks above the (much lower) head
+	ins(lightA...)
+	ins(main[L-2 : L+1]...)
+	return sc
+}
+
 // Main is the body of cmd/c02 and cmd/c03.
 func Main(prop string) {
 	c := vh.Init(prop)
@@ -183,7 +279,8 @@ func Main(prop string) {
 	defer m.Close()
 	c.Res.Rule = "a case is one chain operation (InsertChain / InsertHeaderChain / SetHead / close+reopen) applied to core.BlockChain on a recording database and to the extracted Coq model, inside a scenario = block tree built with core.GenerateChain (branch lengths 1-8; difficulties giving longer-lighter, shorter-heavier and tied branches; transfers, the same transaction on several branches; invalid blocks) + a random history (linear extensions in random batches, child-first and duplicate batches, rewinds, reopen); non-trivial = a reorganisation, rewind, reopen or header import, distinct by (scenario, position)"
 	c.Assume("blocks are well formed (number = parent number + 1, distinct hashes): everything comes from core.GenerateChain")
-	c.Assume("archive mode (CacheConfig.Disabled); header verification by the full-fake engine; tie-break coin controlled through math/rand.Seed (GODEBUG randseednop=0)")
+	c.Assume("pruning sessions (\"p\": CacheConfig{Disabled:false, TrieNodeLimit:256, TrieTimeLimit:5m}, main chain > 128 blocks) run the direct oracles only - the model is archive-only")
+	c.Assume("archive mode (CacheConfig.Disabled) for every session compared with the model; header verification by the full-fake engine; tie-break coin controlled through math/rand.Seed (GODEBUG randseednop=0)")
 	uniq := 0
 	if c.Replay != "" {
 		RunScenario(c, m, prop, LoadReplay(c, c.Replay), uniq)
@@ -194,6 +291,12 @@ func Main(prop string) {
 		uniq++
 		RunScenario(c, m, prop, sc, uniq)
 		c.Sample(map[string]interface{}{"scenario": sc.Name, "blocks": len(sc.Nodes) - 1, "ops": sc.Ops})
+	}
+	for i := 0; i < c.Scale(2, 12); i++ {
+		uniq++
+		sc := PruningScenario(c.Rng.Fork(), prop, fmt.Sprintf("seed%d-pruning%d", c.Seed, i))
+		RunScenario(c, m, prop, sc, uniq)
+		c.Count("pruning-scenarios")
 	}
 	trees := c.Scale(50, 400)
 	for i := 0; i < trees; i++ {
